@@ -76,8 +76,8 @@ theorem heap_step (p : Pump) (inp : List RawItem) (e : Ev) (p' : Pump) (rest : L
 
 /-- (F) heap_not_linear: the memory clause "within a fixed multiple of input size plus budget-counted
 events" is false of the model (and of the code, measured with a counting allocator by the check): d
-nested anchored sequences around n scalars buffer about d·n events. Witness d = 6, n = 8: 31 raw items,
-31 observed events, but more than 3 × (31 + 31) buffered events. -/
+nested anchored sequences around n scalars buffer about d·n events. Witnesses: d = 12, n = 8 has 34 raw items (and as many observed events) but more than
+4 × 34 × 2 buffered events; d = 48 (106 items) gives more than 13 × 106 × 2: the ratio grows with d. -/
 def nest : Nat → LNode → LNode
   | 0, t => t
   | d + 1, t => .seq (d + 1) none 1 2 [nest d t]
@@ -89,8 +89,12 @@ def heapAtEnd (t : LNode) : Option Nat :=
   -- stop before the document end marker so that the anchor table is still populated
   (pumpAll 1000 p0 ([.ev .streamStart 0, .ev (.docStart false) 0] ++ itemsOf t) []).map (fun x => heapEvents x.2.2)
 
+
 theorem heap_not_linear_witness :
-    (itemsOf (nest 6 (flatSeq 8))).length = 22 ∧ (heapAtEnd (nest 6 (flatSeq 8))).map (fun h => decide (h > 3 * (22 + 22))) = some true := by
+    (itemsOf (nest 12 (flatSeq 8))).length = 34 ∧
+    (heapAtEnd (nest 12 (flatSeq 8))).map (fun h => decide (h > 4 * (34 + 34))) = some true ∧
+    (itemsOf (nest 48 (flatSeq 8))).length = 106 ∧
+    (heapAtEnd (nest 48 (flatSeq 8))).map (fun h => decide (h > 13 * (106 + 106))) = some true := by
   decide
 
 end SaphyrVerif.Props.C08
